@@ -153,6 +153,12 @@ def _normalise_locals(rel: str, tree: ast.Module) -> None:
     if not _REFNAMES:
         return
 
+    try:
+        for line in canon.inline_new_helpers(tree, rel, _REFNAMES):
+            NORMALISED.append(line)
+    except Exception:  # noqa: BLE001 -- a normalisation problem must never break the analysis
+        pass
+
     def visit(node, prefix):
         for ch in ast.iter_child_nodes(node):
             if isinstance(ch, ast.ClassDef):
@@ -276,7 +282,14 @@ class Index:
             canon.QUIET = self.quiet = canon.quiet_settle(entries)
             for rel, tree in self._fresh:
                 if _reference_digest(rel) != hashlib.sha1(self.modules[rel].source.encode()).hexdigest() or rel == "utils/compatibility/openturns.py":
+                    before = len(NORMALISED)
                     _normalise_locals(rel, tree)
+                    if any("helper dropped" in line for line in NORMALISED[before:]):
+                        # the class tables were collected at parse time: collect them again without the dropped helpers
+                        mod = self.modules[rel]
+                        mod.classes, mod.functions, mod.assigns = {}, {}, {}
+                        for stmt in tree.body:
+                            self._collect_top(stmt, mod)
                 if os.environ.get("GV_CANON_TESTS", "1") == "1":
                     canon.canonicalise_tests(tree)
             self._fresh = []
